@@ -261,11 +261,14 @@ def judge_sequence(inp, recs):
                             % (j, got, seq, prev_seq)))
         if rec['sent']:
             prev_seq = rec['sent'][0][4] >> 2
-        bad += judge(kind, mr, ign, h, rec['q_before'] if j == 0 else [], rec['consumed'], rec['pending'],
+        # frames the HARNESS put on the RMCP queue (to exercise the get path) count as received; frames the
+        # code itself left there do not excuse anything
+        prefilled = rec['q_before'] if inp.get('queue0') else []
+        bad += judge(kind, mr, ign, h, prefilled, rec['consumed'], rec['pending'],
                      rec['result'], rec['carry'] == 0)
         # frames received during an earlier request never prevent a later one from succeeding:
         # nothing unread is left over, and this request's own matching reply arrives first
-        if j > 0 and rec['carry'] == 0 and rec['pending'] and rec['pending'][0][0] == 'F':
+        if j > 0 and rec['carry'] == 0 and not prefilled and rec['pending'] and rec['pending'][0][0] == 'F':
             c = frame_class(kind, h, rec['pending'][0][1], ign)
             attempts = (mr + 1) if kind == 'rmcp' else mr
             if c[0] == 'match' and attempts >= 1 and (isinstance(rec['result'], Exception) or bytes(rec['result']) != c[1]):
@@ -432,9 +435,9 @@ def run(ctx):
             seed, alpha, prefix, n, budgets = job
             for ci, ((kind, ign), (m, codes)) in enumerate(out.items()):
                 D.add(('sweep', kind, ign, alpha, prefix, n), True, 'sweep-%s-len%d' % (kind, len(prefix) + n))
-                if q and len(prefix) + n >= 5 and (sum(prefix) + ci) % 2:
-                    # quick tier: the property oracle ran on every ordering; the model is compared
-                    # on every second (shard, configuration) pair of the longest words
+                if len(prefix) + n >= (5 if q else 6) and (sum(prefix) + ci) % 2:
+                    # the property oracle ran on every ordering; the model is compared on every second
+                    # (shard, configuration) pair of the longest words (length 5 quick; 6 and 7 thorough)
                     continue
                 sweep_terms.append('chk_sweep %s %s %d %d %s %s %s %s %s %s %s' % (
                     COQ_KIND[kind], C.c_bool(ign), m['slave'], m['seq0'], nl(m['rq']), C.c_hex(bytes.fromhex(m['p'])),
@@ -548,8 +551,8 @@ def run(ctx):
                 'netfn, other LUN, bad header checksum, bad payload checksum, bridge ack, short frame, time-out} and of '
                 'length 0..%d over 13 symbols (+ OS error, bridged reply, failing bridge response)%s, each under retry '
                 'budgets 0..3 on Rmcp (rmcp_ignore_rq_seq off/on), IpmbDev, Aardvark (one random request per shard of 1000 '
-                'words; quick tier: the model is compared on all orderings up to length 4 and on every second (shard, '
-                'configuration) pair of length 5, the property oracle runs on all); then %d random sequences of 1..4 requests on one interface object (late replies to earlier '
+                'words; the model is compared on all orderings up to length 4 (thorough 5) and on every second (shard, '
+                'configuration) pair of the longer ones, the property oracle runs on all); then %d random sequences of 1..4 requests on one interface object (late replies to earlier '
                 'requests, pre-filled queue, bridged targets, rmcp_ignore_sdu_length). distinct_nontrivial counts each '
                 '(ordering, budget, configuration) run once plus distinct sequences; every run has >= 1 request'
                 % (5 if q else 6, 3 if q else 4, '' if q else ', length 7 over {match, stale, bad checksum, ack, short, time-out}',
